@@ -149,46 +149,8 @@ def run(ctx):
                 ctx.prove("ii/sum=1/%s/%s%d/%d" % (mesh, kind, deg, j // 12), z3.And(*cl[j : j + 12]), [], family="partition_of_unity", params=params, abs_cons=False, group="ii-unity-%s%d" % (kind, deg))
             ctx.concrete("partition_of_unity/%s/%s%d" % (mesh, kind, deg), "partition_of_unity", params)
         # dual nodal values: function j at the three corners of every barycentric element
-        bg = g.barycentric_refinement
-        NV, NE = g.number_of_vertices, g.number_of_elements
-        corners = [lift_arr(np.array([[F(p[0])], [F(p[1])]], dtype=object)) for p in REF]
-        valence = np.bincount(np.asarray(g.elements).ravel(), minlength=NV)
         for kind, deg in (("DUAL", 0), ("DUAL", 1)):
-            sp = b.function_space(g, kind, deg)
-            bad = []
-            for j in range(sp.global_dof_count):
-                c = np.zeros(sp.global_dof_count)
-                c[j] = 1
-                gf = b.GridFunction(sp, coefficients=lift_arr(c))
-                for el in sp.support_elements:
-                    el = int(el)
-                    coarse = el // 6
-                    for li in range(3):
-                        bv = int(bg.elements[li, el])
-                        got = gf.evaluate(el, corners[li] if deg == 1 else lift_arr(np.array([[F(1, 3)], [F(1, 3)]], dtype=object)))[0, 0]
-                        if deg == 1:
-                            # DUAL1 function j belongs to coarse element j; classify the barycentric vertex geometrically
-                            pos = np.asarray(bg.vertices[:, bv], dtype=float)
-                            gv_ = np.asarray(g.vertices, dtype=float)
-                            if bv < NV:
-                                want = F(1, int(valence[bv])) if bv in [int(x) for x in g.elements[:, j]] else F(0)
-                            elif any(np.allclose(pos, gv_[:, [int(x) for x in g.elements[:, ce]]].mean(axis=1)) for ce in range(NE)):
-                                want = F(1) if np.allclose(pos, gv_[:, [int(x) for x in g.elements[:, j]]].mean(axis=1)) else F(0)
-                            else:
-                                want = F(0)
-                                for le in range(3):
-                                    ed = int(g.element_edges[le, j])
-                                    if np.allclose(gv_[:, [int(x) for x in g.edges[:, ed]]].mean(axis=1), pos):
-                                        want = F(1, 2)
-                        else:
-                            # DUAL0 function j (coarse P1 dof j = vertex j on a closed grid) is 1 on the sub-triangles touching vertex j
-                            want = F(1) if int(bg.elements[0, el]) == j else F(0)
-                        gv = SR.lift(got)
-                        gv = gv.c if gv.is_const() else None
-                        if gv != want:
-                            bad.append((j, el, li, str(gv), str(want)))
-                        if deg == 0:
-                            break
+            bad = dual_nodal_mismatches(b, g, kind, deg)
             ctx.prove("ii/nodal/%s/%s%d" % (mesh, kind, deg), z3.BoolVal(not bad), [], family="dual_nodal", params={"mesh": mesh, "kind": kind, "deg": deg, "first_mismatches": bad[:4]}, abs_cons=False, group="ii-nodal-%s%d" % (kind, deg))
     ctx.encode_secs["ii"] = round(time.time() - t0, 2)
 
@@ -257,6 +219,50 @@ def run(ctx):
     ctx.twin("twin/count-off-by-one", z3.Implies(pcf, count == int(space.global_dof_count) + 1), [z3.Or(*mv)], abs_cons=False)
     ctx.concrete("dof_count", "dof_count", {"mesh": "T5", "kind": "P", "deg": 1})
     ctx.encode_secs["iii-iv"] = round(time.time() - t0, 2)
+
+
+def dual_nodal_mismatches(b, g, kind, deg):
+    """list of (function, bary element, corner, got, want) where a dual basis function misses its documented nodal value."""
+    bg = g.barycentric_refinement
+    NV, NE = g.number_of_vertices, g.number_of_elements
+    corners = [lift_arr(np.array([[F(p[0])], [F(p[1])]], dtype=object)) for p in REF]
+    valence = np.bincount(np.asarray(g.elements).ravel(), minlength=NV)
+    sp = b.function_space(g, kind, deg)
+    bad = []
+    for j in range(sp.global_dof_count):
+        c = np.zeros(sp.global_dof_count)
+        c[j] = 1
+        gf = b.GridFunction(sp, coefficients=lift_arr(c))
+        for el in sp.support_elements:
+            el = int(el)
+            coarse = el // 6
+            for li in range(3):
+                bv = int(bg.elements[li, el])
+                got = gf.evaluate(el, corners[li] if deg == 1 else lift_arr(np.array([[F(1, 3)], [F(1, 3)]], dtype=object)))[0, 0]
+                if deg == 1:
+                    # DUAL1 function j belongs to coarse element j; classify the barycentric vertex geometrically
+                    pos = np.asarray(bg.vertices[:, bv], dtype=float)
+                    gv_ = np.asarray(g.vertices, dtype=float)
+                    if bv < NV:
+                        want = F(1, int(valence[bv])) if bv in [int(x) for x in g.elements[:, j]] else F(0)
+                    elif any(np.allclose(pos, gv_[:, [int(x) for x in g.elements[:, ce]]].mean(axis=1)) for ce in range(NE)):
+                        want = F(1) if np.allclose(pos, gv_[:, [int(x) for x in g.elements[:, j]]].mean(axis=1)) else F(0)
+                    else:
+                        want = F(0)
+                        for le in range(3):
+                            ed = int(g.element_edges[le, j])
+                            if np.allclose(gv_[:, [int(x) for x in g.edges[:, ed]]].mean(axis=1), pos):
+                                want = F(1, 2)
+                else:
+                    # DUAL0 function j (coarse P1 dof j = vertex j on a closed grid) is 1 on the sub-triangles touching vertex j
+                    want = F(1) if int(bg.elements[0, el]) == j else F(0)
+                gv = SR.lift(got)
+                gv = gv.c if gv.is_const() else None
+                if gv != want:
+                    bad.append((j, el, li, str(gv), str(want)))
+                if deg == 0:
+                    break
+    return bad
 
 
 def coherence(space, g, kind):
